@@ -48,6 +48,7 @@ type report struct {
 	WallMs       float64        `json:"wall_ms"`
 	Unclean      bool           `json:"unclean"`
 	Stuck        []string       `json:"stuck"`
+	ExtOracle    bool           `json:"ext_oracle"`
 }
 
 type finding struct {
@@ -75,6 +76,8 @@ var (
 	level   = flag.String("level", "exploration", "evidence level")
 )
 
+var raceDir string
+
 func die(code int, format string, a ...any) {
 	fmt.Fprintf(os.Stderr, "runner: "+format+"\n", a...)
 	os.Exit(code)
@@ -94,6 +97,10 @@ func baseEnv() []string {
 func runWorker(extra []string, timeout time.Duration) (string, error) {
 	cmd := exec.Command(*bin, "-test.run", "^TestWorker$", "-test.timeout", "0")
 	cmd.Env = append(baseEnv(), extra...)
+	if raceDir != "" {
+		// race-detector reports (race builds only) go to files the worker reads back after every run
+		cmd.Env = append(cmd.Env, "VERIF_RACELOG="+filepath.Join(raceDir, "race"), "GORACE=halt_on_error=0 exitcode=0 suppress_equal_stacks=0 suppress_equal_addresses=0 history_size=5 log_path="+filepath.Join(raceDir, "race"))
+	}
 	var out strings.Builder
 	cmd.Stdout = &out
 	cmd.Stderr = &out
@@ -187,6 +194,10 @@ func main() {
 		die(2, "-bin required")
 	}
 	if *replay != "" {
+		if d, err := os.MkdirTemp("", "verif-replay-"); err == nil {
+			raceDir = d
+			defer os.RemoveAll(d)
+		}
 		out, err := runWorker([]string{"VERIF_REPLAY=" + *replay}, 10*time.Minute)
 		fmt.Print(out)
 		if err != nil {
@@ -226,6 +237,7 @@ func main() {
 		die(2, "%v", err)
 	}
 	defer os.RemoveAll(tmp)
+	raceDir = tmp
 
 	// ---- exploration ----
 	var wg sync.WaitGroup
@@ -310,7 +322,8 @@ func main() {
 						continue
 					}
 					detChecked++
-					if o.Sig != r.Sig || strings.Join(o.Classes, ",") != strings.Join(r.Classes, ",") || o.Steps != r.Steps {
+					// classes of an external oracle (race detector) are not part of the comparison: see props.Prop.ExtOracle
+					if o.Sig != r.Sig || (!r.ExtOracle && strings.Join(o.Classes, ",") != strings.Join(r.Classes, ",")) || o.Steps != r.Steps {
 						mismatch = append(mismatch, fmt.Sprintf("seed %d: sig %s/%s steps %d/%d classes %v/%v (GOMAXPROCS=%d)", r.Seed, o.Sig, r.Sig, o.Steps, r.Steps, o.Classes, r.Classes, gmp))
 					}
 				}
@@ -369,7 +382,12 @@ func main() {
 			break
 		}
 		h := newByClass[c]
-		safe := strings.NewReplacer("/", "_", " ", "_").Replace(c)
+		safe := strings.Map(func(r rune) rune {
+			if r >= 'a' && r <= 'z' || r >= 'A' && r <= 'Z' || r >= '0' && r <= '9' || r == '.' || r == '-' {
+				return r
+			}
+			return '_'
+		}, c)
 		path := filepath.Join(verif, "replays", fmt.Sprintf("%s-%s-%d.json", *propID, safe, h.rep.Seed))
 		env := []string{"VERIF_PROP=" + *propID, "VERIF_TIER=" + *tier, fmt.Sprintf("VERIF_MINIMISE=%d", h.rep.Seed), "VERIF_CLASS=" + c, "VERIF_REPLAY_OUT=" + path}
 		out, err := runWorker(env, 15*time.Minute)
